@@ -55,7 +55,8 @@ def self_field_of(t):
 
 
 def real_guards(b, bb):
-    """Discriminant terms of the branching blocks that dominate bb and can bypass it (conditions under which bb runs)."""
+    """Discriminant terms of the branching blocks that dominate bb and can bypass it (conditions under which bb runs).
+    (Dominance-based on purpose: transitive control dependence would chain through the `?` of every earlier field's write.)"""
     res = []
     for bi in b.reachable_blocks():
         if bi == bb or not b.dominates(bi, bb):
@@ -69,18 +70,27 @@ def real_guards(b, bb):
     return res
 
 
+def _pure_path(t):
+    """self.<field> possibly behind references: no operator, constant, downcast or call."""
+    while isinstance(t, tuple) and t and t[0] in ("ref", "deref"):
+        t = t[1]
+    return isinstance(t, tuple) and len(t) == 3 and t[0] == "field" and t[1] == ("deref", P(1))
+
+
 def guard_ok(g, fld):
     """A guard that only tests presence of the same field, iterates it, or propagates an earlier write error."""
     t = g[1] if g[0] == "discr" else g
     t = peel(t, transparent=["MessageField::as_ref", "Option::as_ref", "Option::as_deref", "Deref::deref"])
-    if self_field_of(t) == fld and not [s for s in subterms(t) if isinstance(s, tuple) and s and s[0] == "call" and not is_call(s, ["Iterator::next", "IntoIterator::into_iter", "slice::iter", "MessageField::as_ref", "Option::as_ref", "Deref::deref", "Option::as_deref"])]:
-        return True
     if is_call(t, "Try::branch"):
         return True
     if is_call(t, "Iterator::next"):
         e = elem_of(("field", ("downcast", t, "Some"), "0"))
         return bool(e) and self_field_of(e[0]) is not None and not [a for a in e[1] if a not in ("into_iter", "iter")]
-    return False
+    if is_call(t, ["Option::is_some", "MessageField::is_some"]):
+        t = peel(t[2][0], transparent=["MessageField::as_ref", "Option::as_ref", "Option::as_deref", "Deref::deref"]) if t[2] else None
+        return g[0] != "discr" and _pure_path(t) and self_field_of(t) == fld
+    # `if let Some(v) = self.f` / `self.f.as_ref()`: the discriminant of the field itself, nothing computed from its value
+    return g[0] == "discr" and _pure_path(t) and self_field_of(t) == fld
 
 
 def rule_R1(ctx, f):
